@@ -12,7 +12,9 @@ PROP_MODULE = 'PbVerif.Props.C20'
 RULE = ('cases = (grid shape incl. M = N and sides down to diff_order+2, diff_order per axis, num_eigens from diff_order+1 to full per axis, '
         'lam per axis, weight matrices, hosts): _make_btwb / rhs / reconstruction / eigen-penalty of WhittakerSystem2D and PSpline2D vs the '
         'Lean array-algebra model (exact rationals on small integer bases); full eigenbasis vs direct Kronecker solve; truncated basis vs '
-        'the Galerkin equations in an independently computed eigenbasis; individual_axes vs explicit 1-D loops; non-trivial = differing '
+        'the Galerkin equations in an independently computed eigenbasis; individual_axes: the Lean plan (axis, coordinate vector, kwargs pairing, order of '
+        'the 1-D fits) executed with direct calls of the real 1-D method (x-dependent and x-independent methods, square and rectangular grids, x and/or z '
+        'unsorted, every form of method_kwargs, rejected inputs) and the Lean semantics of the plan with Baseline(c).mor as the 1-D method compared exactly; non-trivial = differing '
         'settings per axis or truncated basis; distinct by canonical tuple')
 ASSUMPTIONS = [
     'LAPACK eig_banded / eigh_tridiagonal: orthonormality and the eigen-equation of the returned vectors are measured on every case, not proved',
@@ -205,48 +207,214 @@ def correspond(ctx):
         if not np.allclose(b1, b2, rtol=0, atol=1e-6 * max(1.0, float(np.max(np.abs(b2))))):
             dis.append(Disagreement('c20.full', f'host:{host}', f'2-D {host} with all eigenvectors differs from the direct solution by {float(np.max(np.abs(b1 - b2))):.3g} '
                                     f'(shape {(m, n)}, diff_order {(dr, dc)})', {'kind': 'host', 'host': host, 'shape': [m, n]}, True))
-    # ---- (c) individual_axes = the 1-D method along the requested axes in order
-    for axes in ((0, 1), (1, 0), 0, 1):
-        for order in ('sorted', 'unsorted', 'uneven'):
-            m, n = 9, 7
-            x, z, Y = M.make_data2d(rng, m, n)
-            if order == 'uneven':
-                x, z = np.cumsum(rng.uniform(0.5, 3, m)), np.cumsum(rng.uniform(0.5, 3, n))
-            if order == 'unsorted':
-                px, pz = rng.permutation(m), rng.permutation(n)
-                x, z, Y = x[px], z[pz], Y[px][:, pz]
-            mk = [{'lam': 1e2}, {'lam': 1e3, 'p': 0.05}]
-            try:
-                with np.errstate(all='ignore'):
-                    b, p = Baseline2D(x, z).individual_axes(Y, axes=axes, method='asls', method_kwargs=mk if not np.isscalar(axes) else mk[0])
-            except Exception as ex:
-                dis.append(Disagreement('c20.axes', 'individual_axes:raises', f'individual_axes(axes={axes}) raised {type(ex).__name__}: {ex}', {'kind': 'axes'}, True))
-                continue
-            want = np.zeros_like(Y)
-            for i, ax in enumerate([axes] if np.isscalar(axes) else axes):
-                kw = mk[i] if not np.isscalar(axes) else mk[0]
-                cur = Y - want
-                part = np.zeros_like(Y)
-                if ax == 0:       # along the rows axis: one fit per column, coordinates x
-                    for j in range(n):
-                        part[:, j] = Baseline(x).asls(cur[:, j], **kw)[0]
-                else:
-                    for i2 in range(m):
-                        part[i2, :] = Baseline(z).asls(cur[i2, :], **kw)[0]
-                want = want + part
-            ctx.case(('axes', str(axes), order), nontrivial=True)
-            ctx.count('individual_axes:' + order)
-            if not np.allclose(b, want, rtol=1e-9, atol=1e-9 * max(1.0, float(np.max(np.abs(want))))):
-                dis.append(Disagreement('c20.axes', f'individual_axes:{order}', f'individual_axes(axes={axes}, x/z {order}) differs from applying the 1-D method along '
-                                        f'the axes in order by {float(np.max(np.abs(b - want))):.3g}', {'kind': 'axes', 'axes': str(axes), 'order': order}, True))
+    # ---- (c) individual_axes = the 1-D method along the requested axes in order: the Lean planner (Model/Axes.lean) says which 1-D
+    # fits are made (axis, coordinate vector, keyword arguments, order); the plan is executed with direct calls of the real 1-D method
+    # and compared with the real individual_axes; the Lean semantics of the plan (oracle: Baseline(c).mor) is compared exactly
+    cases = axes_cases(ctx, rng)
+    plans = drive([c['line'] for c in cases])
+    ctx.traces += len(cases)
+    for c, r in zip(cases, plans):
+        axes_check(ctx, c, r, dis, lines, metas)
     res = drive(lines)
     ctx.traces += len(lines)
     for ln, r, (kind, real, shape) in zip(lines, res, metas):
+        if kind == 'axesrun':
+            msg = axesrun_compare(r, real)
+            if msg:
+                dis.append(Disagreement('c20.model', 'model:axesrun', f'individual_axes(method=mor, {shape}): {msg}', {'kind': 'axesrun', 'case': shape}, False))
+            continue
         pred = parse_mat(r) if kind in ('btwb', 'recon') else np.array([float(v) for v in parse_qs(r)])
         if np.shape(pred) != np.shape(real) or not np.array_equal(pred, np.asarray(real)):
             dis.append(Disagreement('c20.model', f'model:{kind}', f'{kind} of the real array algebra differs from the Lean model for shapes {shape}',
                                     {'kind': kind, 'shape': list(shape)}, False))
     return dis
+
+
+# ---------------------------------------------------------------------------------------------------------------- individual_axes
+AXES_KW = {'asls': ({'lam': 1e2}, {'lam': 1e3, 'p': 0.05}), 'modpoly': ({'poly_order': 1}, {'poly_order': 2, 'max_iter': 5}),
+           'pspline_asls': ({'num_knots': 5, 'lam': 1.0}, {'num_knots': 6, 'lam': 10.0}), 'mor': ({'half_window': 2}, {'half_window': 3}),
+           'loess': ({'fraction': 0.7, 'poly_order': 1}, {'fraction': 0.8, 'poly_order': 1, 'max_iter': 3})}
+KW_FORMS = ['none', 'dict:A', 'dict:B', 'seq:', 'seq:A', 'seq:B', 'seq:A,B', 'seq:B,A', 'seq:A,B,A']
+
+
+def axes_kwarg(form, kwmap):
+    if form == 'none':
+        return None
+    if form.startswith('dict:'):
+        return kwmap[form[5:]]
+    return [kwmap[t] for t in form[4:].split(',') if t]
+
+
+def axes_cases(ctx, rng):
+    cases = []
+    axes_all = [(0, 1), (1, 0), 0, 1]
+    orders = ['sorted', 'unsorted-x', 'unsorted-z', 'unsorted', 'uneven']
+    count = 90 if ctx.thorough else 36
+    for t in range(count):
+        axes = axes_all[t % 4]
+        order = orders[(t // 4) % 5]
+        method = ['asls', 'modpoly', 'pspline_asls', 'mor', 'loess'][int(rng.integers(0, 5))] if t >= 5 else ['asls', 'modpoly', 'pspline_asls', 'mor', 'loess'][t]
+        m, n = [(9, 7), (8, 8), (7, 10), (9, 9)][int(rng.integers(0, 4))]
+        x, z, Y = M.make_data2d(rng, m, n)
+        if order == 'uneven' or rng.random() < 0.3:
+            x, z = np.cumsum(rng.uniform(0.5, 3, m)), np.cumsum(rng.uniform(0.5, 3, n))
+        if order in ('unsorted', 'unsorted-x'):
+            px = rng.permutation(m)
+            x, Y = x[px], Y[px]
+        if order in ('unsorted', 'unsorted-z'):
+            pz = rng.permutation(n)
+            z, Y = z[pz], Y[:, pz]
+        two = not np.isscalar(axes)
+        forms = ['seq:A,B', 'seq:B,A', 'dict:A', 'seq:B', 'none', 'seq:'] if two else ['dict:A', 'seq:B', 'dict:B', 'none', 'seq:']
+        form = forms[int(rng.integers(0, len(forms)))]
+        if method in ('pspline_asls', 'loess') and form in ('none', 'seq:'):
+            form = 'dict:A'       # the defaults (100 knots, fraction 0.2) need more points than these grids have
+        cases.append({'axes': axes, 'order': order, 'method': method, 'x': x, 'z': z, 'Y': Y, 'form': form})
+    # what is rejected before any fit
+    x, z, Y = M.make_data2d(rng, 6, 5)
+    for axes, form in (((0, 0), 'dict:A'), ((1, 1), 'seq:A,B'), ((0, 1), 'seq:A,B,A'), (0, 'seq:A,B'), (1, 'seq:A,B,A'), ((1, 1), 'seq:A,B,A')):
+        cases.append({'axes': axes, 'order': 'sorted', 'method': 'asls', 'x': x, 'z': z, 'Y': Y, 'form': form})
+    for c in cases:
+        ax = c['axes']
+        c['axes_s'] = str(ax) if np.isscalar(ax) else ','.join(str(a) for a in ax)
+        c['line'] = f'c20.axesplan {c["Y"].shape[0]} {c["Y"].shape[1]} {c["axes_s"]} {c["form"]}'
+    # exact runs of the plan's Lean semantics: method mor on integer data, coordinates in any order (also square grids, where a
+    # swapped coordinate vector would go unnoticed by the shapes)
+    for t in range(24 if ctx.thorough else 10):
+        m, n = [(6, 6), (5, 7), (7, 4), (5, 5)][t % 4]
+        x = rng.permutation(m).astype(float) if t % 3 else np.arange(m, dtype=float)
+        z = rng.permutation(n).astype(float) if (t // 2) % 3 else np.arange(n, dtype=float)
+        Y = rng.integers(0, 40, (m, n)).astype(float)
+        axes = axes_all[int(rng.integers(0, 4))]
+        hw = [int(rng.integers(1, 3)), int(rng.integers(1, 3))]
+        two = not np.isscalar(axes)
+        form = (f'seq:{hw[0]},{hw[1]}' if rng.random() < 0.6 else f'dict:{hw[0]}') if two else (f'dict:{hw[0]}' if rng.random() < 0.5 else f'seq:{hw[1]}')
+        if t == 7:
+            axes, form = (1, 1), f'dict:{hw[0]}'
+        if t == 8:
+            axes, form = 0, f'seq:{hw[0]},{hw[1]}'
+        cases.append({'run': True, 'axes': axes, 'x': x, 'z': z, 'Y': Y, 'form': form,
+                      'axes_s': str(axes) if np.isscalar(axes) else ','.join(str(a) for a in axes), 'line': 'ping'})
+    return cases
+
+
+def exec_axes_plan(steps, x, z, Y, method, kwmap):
+    """run the plan with direct calls of the real 1-D method: one fitter per step on the coordinate vector the plan names"""
+    from collections import defaultdict
+    from pybaselines import Baseline
+    base = np.zeros(Y.shape)
+    params = {}
+    for axis, coord, label, key, fits in steps:
+        fitter = Baseline(x if coord == 'x' else z)
+        cur = Y - base
+        outs, plist = [], defaultdict(list)
+        for j in fits:
+            b, p = getattr(fitter, method)(cur[:, j] if axis == 0 else cur[j, :], **kwmap[label])
+            outs.append(b)
+            for k, v in p.items():
+                plist[k].append(v)
+        part = np.stack(outs, axis=1 if axis == 0 else 0)
+        base = base + part
+        params['params_' + key] = plist
+        params['baseline_' + key] = part
+    return base, params
+
+
+def axes_check(ctx, c, r, dis, lines, metas):
+    from pybaselines import Baseline2D
+    x, z, Y, axes = c['x'], c['z'], c['Y'], c['axes']
+    if c.get('run'):
+        kwd = {t: {'half_window': int(t)} for t in c['form'].split(':')[1].split(',')}
+        try:
+            with np.errstate(all='ignore'):
+                real = Baseline2D(x, z).individual_axes(Y, axes=axes, method='mor', method_kwargs=axes_kwarg(c['form'], kwd))
+        except Exception as ex:
+            real = ex
+        lines.append(f'c20.axesrun {c["axes_s"]} {c["form"]} {qs(x)} {qs(z)} {mat(Y)}')
+        metas.append(('axesrun', real, f'axes={axes}, kwargs {c["form"]}, shape {Y.shape}, x {"sorted" if np.all(np.diff(x) > 0) else "unsorted"}, '
+                      f'z {"sorted" if np.all(np.diff(z) > 0) else "unsorted"}'))
+        ctx.case(('axesrun', c['axes_s'], c['form'], Y.shape, tuple(x), tuple(z)), nontrivial=True)
+        ctx.count('individual_axes:exact-run')
+        return
+    method, form = c['method'], c['form']
+    kwmap = {'A': AXES_KW[method][0], 'B': AXES_KW[method][1], '{}': {}}
+    what = f'individual_axes(axes={axes}, method={method}, method_kwargs form {form}, shape {Y.shape}, x/z {c["order"]})'
+    info = {'kind': 'axes', 'axes': c['axes_s'], 'order': c['order'], 'method': method, 'form': form, 'shape': list(Y.shape)}
+    try:
+        with np.errstate(all='ignore'):
+            b, p = Baseline2D(x, z).individual_axes(Y, axes=axes, method=method, method_kwargs=axes_kwarg(form, kwmap))
+        raised = None
+    except Exception as ex:
+        raised = ex
+    ctx.case(('axes', c['axes_s'], c['order'], method, form, Y.shape), nontrivial=True,
+             sample={'check': 'individual_axes', 'axes': c['axes_s'], 'method': method, 'method_kwargs': form, 'x/z': c['order']} if len(ctx.samples) < 6 else None)
+    ctx.count('individual_axes:' + c['order'] + (':raises' if raised is not None else ''))
+    parts = r.split('#')
+    if parts[0] == 'error':
+        if raised is None or type(raised).__name__ != parts[1]:
+            dis.append(Disagreement('c20.model', 'model:axes:error', f'{what}: the Lean planner says {parts[1]} is raised before any fit, the real call '
+                                    f'{"returned" if raised is None else "raised " + type(raised).__name__}', info, False))
+        return
+    steps = []
+    for st in parts[1].split(';'):
+        axis, coord, label, key, fits = st.split(':')
+        steps.append((int(axis), coord, label, key, [int(t) for t in fits.split(',')]))
+    try:
+        with np.errstate(all='ignore'):
+            want, wp = exec_axes_plan(steps, x, z, Y, method, kwmap)
+        direct_err = None
+    except Exception as ex:
+        direct_err = ex
+    if raised is not None or direct_err is not None:
+        if raised is None or direct_err is None or type(raised) is not type(direct_err):
+            dis.append(Disagreement('c20.axes', 'individual_axes:raises', f'{what}: the real call {"returned" if raised is None else "raised " + type(raised).__name__ + ": " + str(raised)[:80]}, '
+                                    f'the planned 1-D fits {"returned" if direct_err is None else "raised " + type(direct_err).__name__ + ": " + str(direct_err)[:80]}', info, True))
+        else:
+            ctx.count('individual_axes:plan-and-real-both-raise:' + type(raised).__name__)
+        return
+    fails = []
+    tol = 1e-9 * max(1.0, float(np.max(np.abs(want))))
+    if np.shape(b) != Y.shape:
+        fails.append(f'the baseline has shape {np.shape(b)}')
+    elif not np.allclose(b, want, rtol=1e-9, atol=tol):
+        fails.append(f'differs from applying the 1-D method along the axes in order by {float(np.max(np.abs(b - want))):.3g}')
+    if list(p) != list(wp):
+        fails.append(f'params has keys {list(p)}, the plan gives {list(wp)}')
+    else:
+        for key in wp:
+            if key.startswith('baseline_'):
+                if np.shape(p[key]) != Y.shape or not np.allclose(p[key], wp[key], rtol=1e-9, atol=tol):
+                    fails.append(f'params[{key}] is not the partial baseline of that axis')
+            else:
+                if list(p[key]) != list(wp[key]) or any(len(p[key][k]) != len(wp[key][k]) for k in wp[key]):
+                    fails.append(f'params[{key}] does not hold one entry per 1-D fit ({ {k: len(v) for k, v in p[key].items()} })')
+                else:
+                    for k in wp[key]:
+                        if np.ndim(wp[key][k][0]) == 1 and not all(np.shape(u) == np.shape(v) and np.allclose(u, v, rtol=1e-9, atol=1e-12)
+                                                                    for u, v in zip(p[key][k], wp[key][k])):
+                            fails.append(f'params[{key}][{k}] is not in the order of the 1-D fits of the plan')
+    for fl in fails:
+        dis.append(Disagreement('c20.axes', f'individual_axes:{c["order"]}', f'{what}: {fl}', info, True))
+
+
+def axesrun_compare(r, real):
+    parts = r.split('#')
+    if parts[0] == 'error':
+        return None if isinstance(real, Exception) and type(real).__name__ == parts[1] else \
+            f'the model says {parts[1]} is raised, the real call {"raised " + type(real).__name__ if isinstance(real, Exception) else "returned"}'
+    if isinstance(real, Exception):
+        return f'the real call raised {type(real).__name__}: {str(real)[:80]}, the model returns a baseline'
+    b, p = real
+    if not np.array_equal(parse_mat(parts[1]), b):
+        return 'the baseline differs from the Lean semantics of the plan (exact comparison)'
+    got = [(kv.split('=')[0], parse_mat(kv.split('=')[1])) for kv in parts[2].split('|')]
+    keys = [k[len('baseline_'):] for k in p if k.startswith('baseline_')]
+    if [k for k, _ in got] != keys:
+        return f'partial baselines {keys}, the model gives {[k for k, _ in got]}'
+    for k, v in got:
+        if not np.array_equal(v, p['baseline_' + k]):
+            return f'params[baseline_{k}] differs from the Lean semantics of the plan (exact comparison)'
+    return None
 
 
 def search(ctx, hints, lean_failed):
